@@ -98,7 +98,7 @@ def build_case(rng):
 def run(ctx):
     rng = ctx.rng
     N = Names()
-    batch = CoqBatch("C12", ["Base", "Events"], shard=200)
+    batch = CoqBatch("C12", ["Base", "Engine", "Events", "EventsModel"], shard=200)
     dist = {"family": {}, "failed": 0, "events": 0, "max_depth": 0, "empty_map": 0}
     nontrivial = set()
     samples = []
@@ -141,6 +141,18 @@ def run(ctx):
         if obs.get("shutdowns") != 1:
             ctx.violation("oracle", f"processor.shutdown() invoked {obs.get('shutdowns')} times for one top-level call", case=case)
         batch.add(n, 1, "Bool.eqb", f"wf_b {c_bool(failed)} {c_list([c_event(N, e) for e in evs])}", "true")
+        # the stream of a synchronous run of a flat graph IS the emission function of EventsModel.v applied to the calls made
+        # (RunStart; per call NodeStart, [RouteDecision], NodeEnd | NodeError; RunEnd) - theorem C12_model says every such stream is WF
+        flat = not any(nn["kind"] in ("graph", "interrupt") for nn in g["nodes"])
+        if flat and rc["runner"] == "sync" and not rc.get("map") and not rc.get("cache") and obs["status"] in ("completed", "failed", "raised"):
+            from harness.props.c16 import missing_error
+            node_failed = failed and obs.get("error") not in (1, 2) and not missing_error(obs)
+            kinds = {nn["name"]: nn["kind"] for nn in g["nodes"]}
+            k = len(obs["log"])
+            xs = c_list([f"(mk_nexec {c_pos(N(nm))} {c_bool(kinds.get(nm) in ('ifelse', 'route') and not (node_failed and j + 1 == k))} "
+                         f"{c_bool(node_failed and j + 1 == k)})" for j, (nm, _kw) in enumerate(obs["log"])])
+            batch.add(n, 110, "events_eqb", f"run_events {xs} {c_bool(failed)}", c_list([c_event(N, e) for e in evs]))
+            dist["emission_checked"] = dist.get("emission_checked", 0) + 1
         # a nested run is parented to the span of the node that launched it (generated wrappers name their graph <node>_g)
         span_node = {e["span"]: e.get("node_name") for e in evs if e["type"] == "NodeStartEvent"}
         for e in evs:
@@ -162,6 +174,10 @@ def run(ctx):
         ctx.violation("harness", res["error"])
     for (ci, code, mv, real, mexp) in res["failed"]:
         case, evs, status = cases_keep.get(ci, ({}, [], None))
+        if code == 110:
+            ctx.violation("correspondence", "the event stream of a synchronous flat run differs from EventsModel.run_events applied to the calls made",
+                          case=case, observed={"events": [(e["type"], e["span"], e["parent"], e.get("node_name"), e.get("status")) for e in evs], "model": mv[:800]})
+            continue
         ctx.violation("oracle", f"the event stream is not a well-formed span tree (checker wf_b rejects it; caller observed {status})",
                       case=case, observed={"events": [(e["type"], e["span"], e["parent"], e.get("node_name"), e.get("status")) for e in evs]})
     ctx.coverage.update(
